@@ -52,7 +52,7 @@ FN_SP = "signac_statepoint.json"
 # ------------------------------------------------------------------ generators
 def _universe(rng):
     u = rng.choice(["pow10", "one", "one", "neg", "prefixkeys", "nested", "hetero", "hetero", "strings", "strings",
-                    "seps", "seps", "lists", "two", "two", "floats", "mixed", "mixed", "bools", "bools", "boolstr", "signed", "signed", "numstr", "originkey"])
+                    "seps", "seps", "lists", "two", "two", "floats", "mixed", "mixed", "bools", "bools", "boolstr", "signed", "signed", "numstr", "originkey", "constkeys", "constkeys"])
     R = rng.random
     if u == "pow10":
         pool = [{"a": v} for v in (1, 10, 100, 1000, 11, 2)]
@@ -84,6 +84,9 @@ def _universe(rng):
         pool = [{"x": x, "n": n} for x in (-0.25, 0.5, -1.5, 2.0, -10.75, 0.125) for n in (-3, 7, -12, 0)]
     elif u == "originkey":   # a key that is called like the (relative) origin: layout exp/exp/<v>, schema exp/{exp:int}
         pool = [{"exp": v} for v in (0, 1, 2, 10)] + [{"exp": 1, "b": "x"}, {"exp": 2, "b": "y"}]
+    elif u == "constkeys":   # keys that are constant across the jobs are left out of the auto path: a schema string
+        # derived from the layout then describes a strict subset of the state point (files present -> conflict)
+        pool = [{"a": i, "mode": "fast", "box": {"L": 8}} for i in (0, 1, 2, 3)] + [{"a": 7, "mode": "fast", "box": {"L": 8}, "b": 1}]
     elif u == "numstr":    # strings that ':float' / ':int' fields read as numbers (signed, bare '.5', '5.')
         pool = [{"x": x, "n": n} for x, n in (("+1.5", "+7"), ("-2", "-2"), (".5", "007"), ("5.", "5"), ("1e3", "12"),
                                               ("-.5", "-0"), ("+.25", "+0"), ("1.5.2", "1_0"))]
@@ -285,6 +288,9 @@ def _one(rng, tier, big=False):
         kind = "dir"
         strip = rng.random() < 0.3
         force_spell = rng.choice(["exp", "exp", "./exp", "abs"])
+    if u == "constkeys" and sps:
+        path = rng.choice([{"t": "none"}, {"t": "fmt", "segs": [["lit", "a/"], ["key", ["a"]]]}])
+        schema = rng.choice([{"t": "auto_str", "wrong": False}, {"t": "call", "mode": "subset"}])
     zip_extra = kind == "zip" and rng.random() < 0.25
     pre = []
     if jobs and rng.random() < 0.2:
@@ -354,6 +360,17 @@ FIXED = [
     {"universe": "F20-root-empty", "jobs": [{"sp": typed({"a": 1}), "files": {}}, {"sp": typed({"a": 2}), "files": {}}],
      "asc": True, "kind": "zip", "path": {"t": "call", "names": [".", ""], "mode": "byid_asc"},
      "schema": {"t": "none"}, "pre": [], "strip": False},
+    # a schema that describes only a strict subset of the state point while state point files are present
+    {"universe": "schema-subset", "jobs": [{"sp": typed({"a": i, "mode": "fast", "box": {"L": 8}}), "files": {"f.txt": b"f".hex()}} for i in (0, 1, 2)],
+     "asc": True, "kind": "dir", "path": {"t": "none"}, "schema": {"t": "auto_str", "wrong": False}, "pre": [], "strip": False},
+    {"universe": "schema-subset", "jobs": [{"sp": typed({"a": i, "mode": "fast", "box": {"L": 8}}), "files": {"f.txt": b"f".hex()}} for i in (0, 1, 2)],
+     "asc": True, "kind": "zip", "path": {"t": "none"}, "schema": {"t": "auto_str", "wrong": False}, "pre": [], "strip": False},
+    {"universe": "schema-subset", "jobs": [{"sp": typed({"a": i, "mode": "fast", "box": {"L": 8}}), "files": {"f.txt": b"f".hex()}} for i in (0, 1, 2)],
+     "asc": True, "kind": "tar", "path": {"t": "none"}, "schema": {"t": "auto_str", "wrong": False}, "pre": [], "strip": False},
+    {"universe": "schema-subset", "jobs": [{"sp": typed({"a": i, "mode": "fast", "box": {"L": 8}}), "files": {"f.txt": b"f".hex()}} for i in (0, 1, 2)],
+     "asc": True, "kind": "zip", "path": {"t": "none"}, "schema": {"t": "call", "mode": "subset"}, "pre": [], "strip": False},
+    {"universe": "schema-subset", "jobs": [{"sp": typed({"a": i, "mode": "fast", "box": {"L": 8}}), "files": {"f.txt": b"f".hex()}} for i in (0, 1, 2)],
+     "asc": True, "kind": "dir", "path": {"t": "none"}, "schema": {"t": "call", "mode": "subset"}, "pre": [], "strip": False},
     # the three import repairs 7b4884e / 54d0555 / 18617f5
     {"universe": "origin-next-to-workspace", "jobs": [{"sp": typed({"a": v}), "files": {"f.txt": b"f".hex()}} for v in (0, 1, 2)],
      "asc": True, "kind": "dir", "path": {"t": "none"}, "schema": {"t": "none"}, "pre": [], "strip": False, "tloc": "workspace_old"},
@@ -529,7 +546,7 @@ FIXED = [
 
 def gen_inputs(tier, rng):
     descs = [dict(d) for d in FIXED]
-    n = 170 if tier == "quick" else 6000
+    n = 165 if tier == "quick" else 6000
     for i in range(n):
         descs.append(_one(rng, tier, big=(tier != "quick" and i % 3 == 0) or (tier == "quick" and i % 12 == 0)))
     return descs
@@ -892,6 +909,12 @@ def run_case(desc):
                         intended[keys[0]] = None
                     elif s["mode"] == "wrong_one" and keys:
                         intended[keys[-1]] = {"wrong": 1}
+                    elif s["mode"] == "subset":
+                        # the callable only knows the first key of each state point
+                        for kk in keys:
+                            if intended[kk]:
+                                k0 = sorted(intended[kk])[0]
+                                intended[kk] = {k0: intended[kk][k0]}
 
                     def pyschema(path, intended=intended):
                         rel = os.path.normpath(os.path.relpath(path, origin) if mk == "dir" else path)   # cwd-relative for both
